@@ -626,7 +626,12 @@ def main():
             print(f"INCONCLUSIVE property={prop} harness={r['harness']}: {r.get('reason')}")
 
         wall = time.time() - t0
-        write_evidence(prop, tier, seed, results, selected, wall, violations, known_hits, notes)
+        if os.path.realpath(REPO) == "/repo" and not a.harness:
+            write_evidence(prop, tier, seed, results, selected, wall, violations, known_hits, notes)
+        else:
+            # a run against a scratch worktree (VERIF_REPO=...) or of a single harness is not
+            # evidence about /repo: it must not overwrite the evidence of the registered check
+            print(f"[check] evidence/{prop}.json not rewritten (VERIF_REPO={REPO}, --harness={a.harness})")
         if a.keep:
             print(f"[check] scratch kept: {scratch}")
         print(f"[check] property={prop} done in {wall:.0f}s: pass={sum(1 for r in results if r['status']=='pass')}"
